@@ -131,9 +131,14 @@ class Sedov(ExactSolver):
         self.a_val = 0.25 * self.xg2 * self.gamp1
         self.b_val = self.gpogm
         self.c_val = 0.5 * self.xg2 * self.gamma
-        self.d_val = (self.xg2 * self.gamp1)/(self.xg2*self.gamp1 -
-                                              2.0 * (2.0 + self.geometry *
-                                                     self.gamm1))
+        d_denom = self.xg2*self.gamp1 - 2.0 * (2.0 + self.geometry *
+                                                self.gamm1)
+        if self.solution_type == 'singular' and d_denom == 0.0:
+            # d_val is only used by the standard and vacuum solution types;
+            # the exactly singular omega makes its denominator vanish
+            self.d_val = float('inf')
+        else:
+            self.d_val = (self.xg2 * self.gamp1)/d_denom
         self.e_val = 0.5 * (2.0 + self.geometry * self.gamm1)
 
         # Evaluate the energy integrals
